@@ -10,3 +10,9 @@ fp("dask/array/chunk.py", "topk", "topk_aggregate", "argtopk", "argtopk_aggregat
 
 # C32
 fp("dask/array/percentile.py", "_percentile", "percentile", "merge_percentiles", "nanpercentile")
+
+# C33
+fp("dask/array/ma.py", "filled", "_wrap_masked", "masked_equal", "masked_where", "getmaskarray", "masked_array",
+   "_chunk_count", "count")
+fp("dask/array/reductions.py", "_cumsum_merge", "_cumprod_merge")
+fp("dask/array/backends.py", "_numel_masked")
